@@ -39,7 +39,7 @@ def directed(rng: random.Random) -> dict:
     body: list = [{"k": "org", "e": E(0x8000)}]
     kind = rng.choice(["capture_eager", "capture_deferred", "forward_label", "local_labels", "recursion", "code_block", "undefined_macro",
                        "too_few", "nested", "zero_params", "shadow_outer", "arg_uses_later_param", "param_shadows_global_unsized",
-                       "mixed_immediate_and_deferred", "splice_in_nested_scope"])
+                       "mixed_immediate_and_deferred", "splice_in_nested_scope", "undefined_macro_nested", "macro_and_scope_same_name"])
     expect_reject = False
     if kind == "capture_eager":
         body += [{"k": "macro", "n": "macA", "ps": ["pa", "pb"], "b": [db(E("pa"), E("pb"))]},
@@ -109,6 +109,26 @@ def directed(rng: random.Random) -> dict:
         body += [{"k": "macro", "n": "macA", "ps": ["pa"], "b": [db(E("pa"))]}, db(1), {"k": "call", "n": rng.choice(["macNone", "maca", "macA2", "macB", "macR", "macZ", "macS", "macI", "macO", "macT", "mac3", "mac7"]), "as": [E(1)]}]
         if rng.random() < 0.5:
             body += [{"k": "macro", "n": "macNone", "ps": ["pa"], "b": [db(E("pa"))]}]   # defined only after its application
+    elif kind == "undefined_macro_nested":
+        expect_reject = True
+        bad = {"k": "call", "n": rng.choice(["put_twise", "macNone", "macB"]), "as": [E(0x11)]}
+        where = rng.choice(["if", "if_in_macro", "block", "loop", "if_else"])
+        body += [{"k": "assign", "n": "debugf", "e": E(1)}, {"k": "macro", "n": "put_twice", "ps": ["pa"], "b": [db(E("pa"), E("pa"))]}]
+        if where == "if":
+            body += [{"k": "if", "c": E("debugf"), "t": [db(1), bad]}, db(0xAA)]
+        elif where == "if_else":
+            body += [{"k": "if", "c": E("debugf"), "t": [{"k": "block", "b": [bad]}], "e": [db(0xBB)]}, db(0xAA)]
+        elif where == "if_in_macro":
+            body += [{"k": "macro", "n": "outerm", "ps": ["pl"], "b": [{"k": "if", "c": E("pl"), "t": [bad]}, db(E("pl"))]}, {"k": "call", "n": "outerm", "as": [E(2)]}]
+        elif where == "block":
+            body += [{"k": "block", "b": [db(1), {"k": "scope", "n": "nsu", "b": [bad]}]}]
+        else:
+            body += [{"k": "for", "v": "itU", "a": E(0), "b": E(2), "body": [{"k": "if", "c": E("itU"), "t": [bad]}]}]
+    elif kind == "macro_and_scope_same_name":
+        body += [{"k": "scope", "n": "waitm", "b": [{"k": "label", "n": "done"}, db(0x60)]},
+                 {"k": "macro", "n": "waitm", "ps": ["pn"], "b": [db(E("pn")), {"k": "label", "n": "done"}, db(0xEA)]},
+                 {"k": "call", "n": "waitm", "as": [E(3)]}, {"k": "ins", "m": "jsr", "shape": "dir", "sz": "w", "e": E("waitm.done")},
+                 {"k": "block", "b": [{"k": "call", "n": "waitm", "as": [E(4)]}, {"k": "data", "d": "dw", "es": [E("waitm.done")]}]}]
     elif kind == "too_few":
         expect_reject = True
         np_ = rng.randint(1, 3)
